@@ -39,11 +39,26 @@ structure Case where
   query : Term
   prog : List Term
 
+mutual
+  /-- `call_nth(G, 1)` is `once(G)` by definition (the first solution of G, no other); neither the
+      reference interpreter nor the VM model has call_nth/2, so program clauses are read with that
+      goal rewritten (only clauses: answers print the query term, which must be the same everywhere) -/
+  def rewriteCallNth : Term → Term
+    | .app f as =>
+      match f, rewriteCallNthArgs as with
+      | "call_nth", .cons g (.cons (.int 1) .nil) => .app "once" (.cons g .nil)
+      | f, as' => .app f as'
+    | t => t
+  def rewriteCallNthArgs : Args → Args
+    | .nil => .nil
+    | .cons t ts => .cons (rewriteCallNth t) (rewriteCallNthArgs ts)
+end
+
 def parseCase (payload : String) : Option Case :=
   match fields payload with
   | m :: q :: cs =>
     match m.toNat?, Term.ofWire q, (cs.filter (· ≠ "")).mapM Term.ofWire with
-    | some max, some query, some prog => some ⟨max, query, prog⟩
+    | some max, some query, some prog => some ⟨max, query, prog.map rewriteCallNth⟩
     | _, _, _ => none
   | _ => none
 
